@@ -19,9 +19,9 @@ for m in ociregistry ociregistry/internal/conformance cmd/ocisrv; do
   fi
 done
 cp /tmp/confirm.$$.demo "$demo"
-(cd "$pkgdir" && go test -count=1 -run 'Demo' . > /tmp/confirm.$$.with 2>&1); with=$?
+(cd "$pkgdir" && go test -count=1 -run 'Demo|ZZ' . > /tmp/confirm.$$.with 2>&1); with=$?
 git apply -R /tmp/confirm.$$.diff
-(cd "$pkgdir" && go test -count=1 -run 'Demo' . > /tmp/confirm.$$.without 2>&1); without=$?
+(cd "$pkgdir" && go test -count=1 -run 'Demo|ZZ' . > /tmp/confirm.$$.without 2>&1); without=$?
 echo "suite_ok=$ok demo_with_change_exit=$with demo_without_change_exit=$without"
 if [ $ok = 1 ] && [ $with != 0 ] && [ $without = 0 ]; then
   mkdir -p /verif/seeded/$id
